@@ -31,12 +31,13 @@ CODES = {
     19: "canary nodes were added although the List of the pods (restart counts) or of the nodes had failed",
     16: "canary replicas did not resolve but a canary status was written",
     17: "a node with more pod restarts was preferred to a valid candidate with fewer",
+    21: "with nodeAntiAffinityKeys: after a selection one value of the keys is carried by more canary nodes than the quota (and than the nodes kept from before)",
     111: "known finding D9: a canary node that vanished or became unfit stays in status.canary.nodes while the count matches",
     20: "harness panic",
 }
 OPEN_STATEMENTS = ["C15_valid_while_active_statement (false of the code: known finding D9)",
-                   "spreading over the values of nodeAntiAffinityKeys (the per-value quota): monitored through the correspondence only; "
-                   "least-restarts is proved without anti-affinity keys (C15_least_restarts)"]
+                   "least-restarts is proved without anti-affinity keys (C15_least_restarts); with them the per-value quota is "
+                   "proved (C15_spreading) and monitored (21), their combination is covered by the correspondence"]
 GO_TIMEOUT = 1200
 
 
@@ -66,8 +67,19 @@ def gen_cases(rng, stats, n, shrink=0.15):
             force["canary_k"] = r_exact + 1
             force["scenario"] = "canary_running"
             force["plain_templates"] = True
+        spread = (not shrunk) and (not exact) and rng.random() < 0.2
+        if spread:
+            # anti-affinity keys and a list that has to GROW: some nodes are kept, more are added - the kept ones count
+            force["n"] = nn = rng.choice([6, 8, 10])
+            force["canary_k"] = rng.choice([1, 1, 2])
+            force["scenario"] = "canary_running"
+            force["plain_templates"] = True
         c = worldgen.gen_eds_world(rng, stats, force)
         e = [o for o in c["objects"] if o["kind"] == "ExtendedDaemonSet"][0]
+        if spread and e["spec"]["strategy"].get("canary") is not None:
+            e["spec"]["strategy"]["canary"]["nodeAntiAffinityKeys"] = rng.choice([["zone"], ["zone"], ["zone", "role"]])
+            e["spec"]["strategy"]["canary"].pop("nodeSelector", None)
+            wprop.bump(stats, "anti-affinity keys with kept nodes and a growing list", "yes")
         if exact and (e.get("status") or {}).get("canary") and e["spec"]["strategy"].get("canary") is not None:
             listed = [x for x in e["status"]["canary"]["nodes"] if x != "n-gone"]
             if len(listed) == r_exact + 1:
@@ -80,6 +92,8 @@ def gen_cases(rng, stats, n, shrink=0.15):
             if exact:
                 can["replicas"] = r_exact
                 can.pop("nodeSelector", None)
+            if spread:
+                can["replicas"] = rng.choice([3, 4, 4, "50%"])
             if shrunk:
                 can["replicas"] = rng.choice([1, 1, 2, "10%", "25%"])
                 wprop.bump(stats, "previous list longer than replicas", "yes")
